@@ -6,8 +6,8 @@ func exceptionTable() []*Exception {
 	multi := "stripe positions come from sortedLockPoses, whose every element is a GetKeyPos result (hash % len(l.locks), proved in range by R1 at the single-key helpers) copied through a set; l.locks is assigned only in NewLocks"
 	freshHash := "the only error return after the creation comes from Hash.IncrBy/IncrByFloat, which fail only for an existing non-numeric field or an overflow: impossible on the hash that was just created empty (the two are on mutually exclusive paths that the path-insensitive rule cannot separate)"
 	return []*Exception{
-		{Rule: "R27", Func: "memdb.hIncrByHash", Construct: "no db.Set before an error reply", Reason: freshHash},
-		{Rule: "R27", Func: "memdb.hIncrByFloatHash", Construct: "no db.Set before an error reply", Reason: freshHash},
+		{Rule: "R27", Func: "memdb.hIncrByHash", Construct: "no db.Set before the error reply decided by IncrBy", Reason: freshHash},
+		{Rule: "R27", Func: "memdb.hIncrByFloatHash", Construct: "no db.Set before the error reply decided by IncrByFloat", Reason: freshHash},
 		{Rule: "R1", Func: "(*memdb.Locks).*", Construct: "index recv.locks[t_[*]]", Reason: multi},
 	}
 }
